@@ -153,7 +153,8 @@ def run(repo, rep, tier):
     # splitter and the entry pattern (C01 owns the statement patterns)
     # what the tag dissection records as name and value (C03 owns it)
     from . import c03 as _c03
-    L.borrow(repo, rep, "R07.1", "C03", _c03.parser_details,
+    L.borrow(repo, rep, "R07.1", "C03",
+             lambda r_, p_: _c03.parser_details(r_, p_, slash=True),
              ("slash-not-before-gt", "tag-space"))
     from . import c01 as _c01
     L.borrow(repo, rep, "R07.1", "C01", _c01.statement_patterns,
